@@ -1,14 +1,14 @@
 #!/bin/bash
-# usage: store_refactors.sh <srcroot> ids...   (verifies each refactoring a/b/c with refactors/verify_refactor.sh, stores the confirmed ones)
+# usage: [RSUF=r2] store_refactors.sh <srcroot> ids...   (verifies each refactoring a/b/c with refactors/verify_refactor.sh, stores confirmed ones as <id>-<RSUF><x>)
 ROOT=$1; shift
 for id in "$@"; do
   for x in a b c; do
     src=$ROOT/$id/SEED/$x
     [ -f $src/patch.diff ] || { echo "$id-$x missing"; continue; }
-    ( out=$(bash /verif/refactors/verify_refactor.sh $src $id-r$x 2>&1 | tail -1); echo "$out"
+    ( out=$(bash /verif/refactors/verify_refactor.sh $src $id-${RSUF:-r}$x 2>&1 | tail -1); echo "$out"
       if echo "$out" | grep -q "applies=yes suite=\[325 passed.*digest_same=yes"; then
-        mkdir -p /verif/refactors/$id-r$x; cp $src/patch.diff $src/equiv.py $src/meta.json /verif/refactors/$id-r$x/ 2>/dev/null
-      else echo "  -> NOT stored: $id-r$x"; fi ) &
+        mkdir -p /verif/refactors/$id-${RSUF:-r}$x; cp $src/patch.diff $src/equiv.py $src/meta.json /verif/refactors/$id-${RSUF:-r}$x/ 2>/dev/null
+      else echo "  -> NOT stored: $id-${RSUF:-r}$x"; fi ) &
   done
   if (( $(jobs -r | wc -l) >= 9 )); then wait; fi
 done
